@@ -570,6 +570,70 @@ def explore_case(ctx, c, rng, stats, lines, pending, violations, subprocess_budg
             stats["fresh_interpreter_kills"] += 1
 
 
+def rlimit_cases(ctx, replay=None):
+    """A REAL I/O failure part-way through the data: the write runs in a forked child whose RLIMIT_FSIZE is smaller than
+    the value (SIGXFSZ ignored, so the kernel answers with a short write / EFBIG).  The write must fail by exception, and
+    afterwards the target still holds the complete previous value, its modified time is unchanged and no staging file is
+    left — whatever buffering the store uses."""
+    import pickle
+    import resource
+    import signal
+    from uberjob.stores import BinaryFileStore, JsonFileStore, PickleFileStore, TextFileStore
+    kinds = {"BinaryFileStore": (BinaryFileStore, b"old", lambda n: bytes(range(256)) * (n // 256)),
+             "TextFileStore": (TextFileStore, "old", lambda n: "abcdefgh" * (n // 8)),
+             "JsonFileStore": (JsonFileStore, ["old"], lambda n: ["abcdefgh"] * (n // 12)),
+             "PickleFileStore": (PickleFileStore, ("old",), lambda n: b"x" * n)}
+    cases = [replay["rlimit_case"]] if replay else [(k, lim, pl) for k in kinds for lim in (4096, 65536) for pl in (False, True)][:16]
+    viol, done = [], 0
+    for kind, limit, use_pathlib in cases:
+        S, old, mk = kinds[kind]
+        with sc.scratch_dir("c11") as d:
+            target = os.path.join(d, "value")
+            path = pathlib.Path(target) if use_pathlib else target
+            S(path).write(old)
+            os.utime(target, ns=(OLD_NS, OLD_NS))
+            with open(target, "rb") as f:
+                before = f.read()
+            pid = os.fork()
+            if pid == 0:
+                code = 3
+                try:
+                    signal.signal(signal.SIGXFSZ, signal.SIG_IGN)
+                    resource.setrlimit(resource.RLIMIT_FSIZE, (limit, resource.getrlimit(resource.RLIMIT_FSIZE)[1]))
+                    try:
+                        S(path).write(mk(limit * 4))
+                        code = 0                      # the write claims success
+                    except OSError:
+                        code = 1
+                    except BaseException:             # noqa: BLE001
+                        code = 2
+                finally:
+                    os._exit(code)
+            _, status = os.waitpid(pid, 0)
+            code = os.waitstatus_to_exitcode(status)
+            done += 1
+            with open(target, "rb") as f:
+                after = f.read()
+            left = [n for n in os.listdir(d) if n != "value"]
+            changed = os.stat(target).st_mtime_ns != OLD_NS
+            what = None
+            if after != before:
+                what = (f"{kind} under RLIMIT_FSIZE={limit}: the target holds {len(after)} bytes that are neither the previous value "
+                        f"({len(before)} bytes) nor the complete new one; write {'returned normally' if code == 0 else 'raised'}")
+            elif code == 0:
+                what = f"{kind} under RLIMIT_FSIZE={limit}: write returned normally although the value could not be stored"
+            elif changed:
+                what = f"{kind} under RLIMIT_FSIZE={limit}: the modified time changed although the new value is not in place"
+            elif left:
+                what = f"{kind} under RLIMIT_FSIZE={limit}: files left behind after the failed write: {left}"
+            elif code != 1:
+                what = f"{kind} under RLIMIT_FSIZE={limit}: child ended with code {code}"
+            if what:
+                viol.append({"property": "C11", "what": what, "replay_fn": "rlimit", "rlimit_case": [kind, limit, use_pathlib]})
+                break
+    return {"violations": viol, "coverage": {"rlimit_fsize_cases": done}}
+
+
 def explore(ctx, n_cases=None, seed_shift=0):
     rng = random.Random(ctx.seed * 7919 + 11 + seed_shift)
     quick = ctx.tier == "quick"
@@ -607,6 +671,10 @@ def explore(ctx, n_cases=None, seed_shift=0):
            "samples": [json.dumps(case_to_json(c))[:300] for c in cases[:2]]}
     try:
         violations = [shrink(v) for v in violations[:3]]
+        if not violations:
+            rl = rlimit_cases(ctx)
+            violations += rl["violations"]
+            cov.update(rl["coverage"])
     finally:
         sc.cleanup_scratch()
     return {"violations": violations, "disagreements": disagreements[:3], "coverage": cov}
@@ -677,6 +745,12 @@ def search(ctx, broken):
 
 def replay(ctx, payload):
     w = payload.get("witness", payload)
+    if w.get("replay_fn") == "rlimit":
+        try:
+            r = rlimit_cases(ctx, replay=w)
+        finally:
+            sc.cleanup_scratch()
+        return r["violations"][0]["what"] if r["violations"] else None
     if "case" not in w:
         return None
     c = case_from_json(w["case"])
